@@ -478,6 +478,113 @@ fn edge_case(t: &mut Tape, rec: &mut Rec) -> CaseResult {
     Ok(())
 }
 
+
+/// one-pass signed messages as the builder emits them (OPS.. literal signature..): a perturbation of
+/// a trailing signature packet, of a one-pass header or of the literal content must not leave the
+/// perturbed signer's signature verifiable through the message-level entry points
+fn one_pass_message_case(t: &mut Tape, rec: &mut Rec) -> CaseResult {
+    let n_signers = t.range(1, 2);
+    let mut signers = vec![];
+    for _ in 0..n_signers {
+        let k = *t.pick(zoo::CHEAP_SIGNERS);
+        if !signers.iter().any(|(x, _)| *x == k) {
+            signers.push((k, *t.pick(k.hashes())));
+        }
+    }
+    let mut cfg = MsgConfig::plain();
+    cfg.signers = signers.clone();
+    cfg.sign_text = t.bool();
+    cfg.seed = t.seed32();
+    let n = t.range(0, 600);
+    let mut data = expand(t.u64(), n);
+    if cfg.sign_text {
+        for b in data.iter_mut() {
+            *b = b"ab \r\n"[*b as usize % 5];
+        }
+    }
+    let bytes = cfg.build(&data).map_err(|e| f("C02:builder-error", e.to_string()))?;
+    let pk = wire::split_packets(&bytes).map_err(|e| f("C02:deframe", e))?;
+    // positive control
+    let verify_all = |msg_bytes: &[u8]| -> Option<Vec<bool>> {
+        let mut m = Message::from_bytes(msg_bytes).ok()?;
+        let mut out = vec![];
+        m.read_to_end(&mut out).ok()?;
+        // signer i is accepted if any of the message's signatures verifies under its key
+        Some(signers.iter().map(|(k, _)| (0..signers.len()).any(|i| m.verify_nested_explicit(i, &zoo::get(*k).public.primary_key).is_ok())).collect())
+    };
+    match verify_all(&bytes) {
+        Some(v) if v.iter().all(|x| *x) => {}
+        other => return fail("C02:positive-control-failed", format!("one-pass message by {signers:?}: {other:?}")),
+    }
+    // the trailing signatures come in reverse order of the one-pass headers
+    let sig_idx: Vec<usize> = pk.iter().enumerate().filter(|(_, p)| p.tag == 2).map(|(i, _)| i).collect();
+    let ops_idx: Vec<usize> = pk.iter().enumerate().filter(|(_, p)| p.tag == 4).map(|(i, _)| i).collect();
+    if sig_idx.len() != signers.len() || ops_idx.len() != signers.len() {
+        rec.discard();
+        return Ok(());
+    }
+    let which = t.below(signers.len());
+    // signer `which` owns ops_idx[which] and sig_idx[len-1-which]
+    let target_sig = sig_idx[signers.len() - 1 - which];
+    let target_ops = ops_idx[which];
+    let mut bodies: Vec<(u8, Vec<u8>)> = pk.iter().map(|p| (p.tag, p.body.clone())).collect();
+    let what = match t.below(3) {
+        0 => {
+            let Some((b2, w)) = perturb_sig(t, &bodies[target_sig].1) else {
+                rec.discard();
+                return Ok(());
+            };
+            bodies[target_sig].1 = b2;
+            format!("trailing signature: {w}")
+        }
+        1 => {
+            // one-pass header: the fields the statement lists (type, algorithms, v6 salt); the key id /
+            // fingerprint octets are a lookup hint and the last octet is the nesting flag
+            let b = &mut bodies[target_ops].1;
+            let mut positions = vec![1usize, 2, 3];
+            if b[0] == 6 {
+                let sl = b[4] as usize;
+                positions.extend(5..5 + sl);
+            }
+            let p = *t.pick(&positions);
+            let bit = t.below(8);
+            b[p] ^= 1 << bit;
+            format!("one-pass header byte {p} bit {bit}")
+        }
+        _ => {
+            let lit = bodies.iter().position(|(tag, _)| *tag == 11).ok_or_else(|| f("C02:no-literal", ""))?;
+            let Some((mode, name, date, content)) = wire::parse_literal(&bodies[lit].1) else {
+                rec.discard();
+                return Ok(());
+            };
+            let (d2, w) = perturb_content(t, &content);
+            if same_text_semantics(&d2, &content, cfg.sign_text) {
+                rec.label("trivial:same-canonical-text");
+                return Ok(());
+            }
+            bodies[lit].1 = wire::literal_body(mode, &name, date, &d2);
+            format!("literal content: {w}")
+        }
+    };
+    rec.label(format!("one-pass:{}", if what.starts_with("one-pass header") { "one-pass-header-field".to_string() } else { what.split(':').next().unwrap_or("?").replace(' ', "-") }));
+    rec.nontrivial((format!("{signers:?}"), cfg.sign_text, n, what.clone()));
+    rec.describe(|| format!("one-pass message by {signers:?} ({} mode, {n} bytes), signer #{which}: {what}", if cfg.sign_text { "text" } else { "binary" }));
+    let tampered: Vec<u8> = bodies.iter().flat_map(|(tag, b)| wire::new_packet(*tag, b)).collect();
+    if tampered == bytes {
+        rec.label("trivial:reencoding");
+        return Ok(());
+    }
+    if let Some(v) = verify_all(&tampered) {
+        let content_changed = what.starts_with("literal");
+        for (i, ok) in v.iter().enumerate() {
+            if *ok && (i == which || content_changed) {
+                return fail("C02:tampered-one-pass-message-verifies", format!("{what}: Message::verify still accepts the signature of signer #{i} ({:?})", signers[i].0));
+            }
+        }
+    }
+    Ok(())
+}
+
 fn cleartext_case(t: &mut Tape, rec: &mut Rec) -> CaseResult {
     let kind = *t.pick(zoo::CHEAP_SIGNERS);
     let z = zoo::get(kind);
@@ -742,6 +849,8 @@ pub fn run(ctx: &Ctx) {
     ctx.group("data-signatures-all-algorithms", Source::Random { n, tape_len: 200 }, |t, rec| data_case(t, rec, zoo::ALL_SIGNERS));
     let n = ctx.tier.pick(4_000u64, 80_000);
     ctx.group("text-signatures-at-normalizer-block-edges", Source::Indexed { count: edge_count() }, edge_case);
+    let n_op = ctx.tier.pick(4000u64, 80_000);
+    ctx.group("one-pass-messages", Source::Random { n: n_op, tape_len: 200 }, one_pass_message_case);
     ctx.group("cleartext", Source::Random { n, tape_len: 120 }, cleartext_case);
     ctx.group("certificate-signatures", Source::Random { n, tape_len: 160 }, cert_sig_case);
     let n = ctx.tier.pick(6_000u64, 150_000);
